@@ -11,7 +11,7 @@ from .. import envs, observe, rt, findings
 ID = "C07"
 LEVEL = "exploration"
 TECHNIQUE = "runtime trace monitor: ordered probe log of every subexpression, exec(source) vs eval(translation)"
-RULE = ("exhaustive over a template catalogue: every assignment target shape (name, attribute, subscript, slice with "
+RULE = ("exhaustive over a template catalogue (every template also in variants where exactly one probe is replaced by its bare value, so that literal / computed special cases of a lowering are exercised): every assignment target shape (name, attribute, subscript, slice with "
         "each subset of bounds, tuple/list patterns, nested, starred, chained with 2-3 targets, annotated), 13 augmented "
         "operators x {name, attribute, subscript, slice, tuple-index} targets, def with positional/keyword-only defaults "
         "and 1-3 decorators, lambda defaults, class with bases/keywords/metaclass/decorators, if/elif, while, for "
@@ -22,7 +22,7 @@ RULE = ("exhaustive over a template catalogue: every assignment target shape (na
 ASSUMPTIONS = ["annotations are not probed: the converter drops annotations by design (C11 excludes them)",
                "probe identity is the ordered list of (kind, id, operands) events; values are compared by repr"]
 EXHAUSTIVE = {"quick": True, "thorough": True}
-FLOOR = {"quick": 3000, "thorough": 3000}
+FLOOR = {"quick": 20000, "thorough": 20000}
 MONITORS = False
 
 OPS = ["+", "-", "*", "/", "//", "%", "**", "<<", ">>", "&", "|", "^", "@"]
@@ -151,6 +151,39 @@ def templates():
     T["nonlocal-store"] = ["def f():", "    nx = p(1, V(1))", "    def g():", "        nonlocal nx", "        nx += p(2, V(2))", "        nx = p(3, nx)", "    g()", "    return p(4, nx)", "f()"]
     T["closure-default"] = ["def f(c):", "    def g(a=p(1, c), *, k=p(2, c)):", "        return p(3, a)", "    return g", "f(p(4, 1))()"]
     return T
+
+
+def literalised(lines):
+    """Variants of a template in which exactly one probe `p(k, value)` is replaced by its bare value: lowerings that
+    special-case literal / side-effect-free sub-expressions (skipped temporaries, re-emitted indices) show up as a
+    missing, duplicated or reordered *other* probe. Yields (suffix, lines)."""
+    import ast
+    import copy
+    src = "\n".join(lines) + "\n"
+    try:
+        tree = ast.parse(src)
+    except SyntaxError:
+        return
+    probes = [n for n in ast.walk(tree) if isinstance(n, ast.Call) and isinstance(n.func, ast.Name) and n.func.id == "p"
+              and len(n.args) == 2 and isinstance(n.args[0], ast.Constant)]
+    if len(probes) < 2:
+        return
+    for target in probes:
+        k = target.args[0].value
+
+        class R(ast.NodeTransformer):
+            def visit_Call(self, node):
+                self.generic_visit(node)
+                if isinstance(node.func, ast.Name) and node.func.id == "p" and len(node.args) == 2 \
+                        and isinstance(node.args[0], ast.Constant) and node.args[0].value == k:
+                    return node.args[1]
+                return node
+        t2 = R().visit(copy.deepcopy(tree))
+        try:
+            out = ast.unparse(ast.fix_missing_locations(t2))
+        except Exception:
+            continue
+        yield "~lit%s" % k, out.splitlines()
 
 
 PLACES = ["module", "function", "class", "method", "loop"]
@@ -325,12 +358,23 @@ def run_case(rec, tname, lines, where, cfg):
     rec.violation(o.status, case, o.detail)
 
 
-def run_shard(rec):
+def all_templates():
     T = templates()
+    out = dict(T)
+    for tname, lines in T.items():
+        for suffix, l2 in literalised(lines):
+            out[tname + suffix] = l2
+    return out
+
+
+def run_shard(rec):
+    T = all_templates()
+    rec.count("templates-with-literalised-variants", 0)
     idx = 0
     for tname, lines in T.items():
+        derived = "~lit" in tname
         for where in PLACES:
-            for cfg in envs.CFGS:
+            for ci, cfg in enumerate(envs.CFGS):
                 idx += 1
                 if idx % rec.nshards != rec.shard:
                     continue
@@ -338,12 +382,12 @@ def run_shard(rec):
 
 
 def replay(case, rec):
-    T = templates()
+    T = all_templates()
     run_case(rec, case["template"], T[case["template"]], case["place"], tuple(case["cfg"]))
 
 
 def run_witness(kf):
-    T = templates()
+    T = all_templates()
     w = kf["witness"]
     src = place(T[w["template"]], w.get("place", "module"))
     o = observe.differential(src, tuple(w.get("cfg", envs.DEFAULT_CFG)), mkenv, globals_cmp=False)
